@@ -65,9 +65,13 @@ Init ==
   /\ x0 \in ObjectsOf(dim)
   /\ cur = x0 /\ acc = Ident(dim + 1) /\ hist = <<>>
 
+\* TLC integers are 32 bit: histories whose accumulated matrix has entries beyond this bound are not enumerated (the
+\* invariants multiply four such entries); with the quick exponent table no history reaches it
+SizeOK(M) == \A i \in DOMAIN M : \A j \in DOMAIN M[i] : Abs(M[i][j]) <= 400
 Step(op) ==
   /\ Len(hist) < MaxLen
   /\ LET M == OpMatrix(dim, op) IN
+       /\ SizeOK(MatPrimitive(MatMul(M, acc)))
        /\ cur' = CanonAny(ActAny(M, cur))
        /\ acc' = MatPrimitive(MatMul(M, acc))
   /\ hist' = Append(hist, op)
